@@ -185,6 +185,33 @@ def coq_build(prop, cfg):
     return res
 
 
+def run_conc(prop, seed, rounds):
+    """concurrent stage: the harness built with the race detector runs the property's operations from many
+    goroutines; returns {rc, scenarios, ops, failures, race, log}"""
+    binp, detector = "bin_harness_race", True
+    with Lock():
+        rc, out = sh("go build -race -tags verif -o bin_harness_race ./harness", cwd=GO, env=dict(GOENV, CGO_ENABLED="1"), timeout=900)
+    if rc != 0:
+        # no cgo toolchain: the stage still runs (panics, impossible counts), only without the detector
+        binp, detector = "bin_harness", False
+    env = dict(GOENV, GORACE="halt_on_error=0 exitcode=66")
+    p = subprocess.run([os.path.join(GO, binp), "-prop", prop, "-conc", "-seed", str(seed), "-n", str(rounds)],
+                       cwd=GO, env=env, stdout=subprocess.PIPE, stderr=subprocess.PIPE, text=True, timeout=1800)
+    res = {"rc": p.returncode, "scenarios": 0, "ops": 0, "failures": [], "race": "DATA RACE" in p.stderr, "dist": {}, "detector": detector,
+           "log": p.stderr[:6000]}
+    for line in p.stdout.splitlines():
+        if line.startswith("{"):
+            try:
+                j = json.loads(line)
+                res.update({"scenarios": j.get("scenarios", 0), "ops": j.get("ops", 0), "failures": j.get("failures") or [],
+                            "dist": j.get("dist") or {}})
+            except ValueError:
+                pass
+    if p.returncode != 0 and not res["failures"] and not res["race"]:
+        res["failures"] = ["the concurrent stage ended with exit status %d: %s" % (p.returncode, p.stderr[-1500:])]
+    return res
+
+
 def coqchk(prop):
     """independent re-check of the compiled property file and everything it depends on (thorough tier);
     cached by the hash of the .vo files it covers"""
@@ -431,6 +458,21 @@ def check(prop, tier, seed):
             print("VIOLATION property=%s replay=%s no-failing-input-found" % (prop, p))
         violations = max(1, len(diffs))
 
+    # ---- concurrent stage (validates the atomicity the sequential models assume)
+    conc = None
+    rounds = cfg.get("conc_" + tier, 0)
+    if rounds and not any(b.startswith("harness-build") for b in broken):
+        conc = run_conc(prop, seed, rounds)
+        if conc["failures"] or conc["race"]:
+            replay_n += 1
+            what = conc["failures"][0] if conc["failures"] else "data race reported by the Go race detector"
+            p = write_replay(prop, replay_n, {"property": prop, "kind": "failing-schedule", "seed": seed, "rounds": rounds,
+                                              "why": what, "failures": conc["failures"], "race_detected": conc["race"],
+                                              "race_report": conc["log"],
+                                              "replay_cmd": "./check %s --replay out/%s/replay-%d.json" % (prop, prop, replay_n)})
+            print("VIOLATION property=%s replay=%s" % (prop, p))
+            violations += max(1, len(conc["failures"]))
+
     # ---- evidence
     keys = set(c["key"] for c in cases if c["key"] not in ("-", "") and not c["key"].startswith("known:"))
     samples = [{"input": c["in"][:600], "impl_observed": c["out"][:600], "readable": c["human"][:600]} for c in cases[:3]]
@@ -448,6 +490,10 @@ def check(prop, tier, seed):
             "input_distribution": dist.get("dist", {}), "search_cases": searched, "broken": broken,
             "gen_files": cfg.get("gen", []),
             "coqchk": None if chk is None else {k: chk[k] for k in ("ok", "axioms", "wall_s", "cached") if k in chk},
+            "concurrent_stage": None if conc is None else {
+                "what": "the same operations from 4-16 goroutines under the Go race detector; outcome compared with what every serial order gives",
+                "scenarios": conc["scenarios"], "operations": conc["ops"], "failures": conc["failures"][:5],
+                "race_detector_enabled": conc["detector"], "data_race_reported": conc["race"], "distribution": conc["dist"]},
         },
         "assumptions": cfg.get("assumptions", []),
         "wall_s": round(time.time() - t0, 2), "violations": violations,
@@ -464,6 +510,17 @@ def check(prop, tier, seed):
 
 def replay(prop, path):
     r = json.load(open(path))
+    if r.get("kind") == "failing-schedule":
+        with Lock():
+            rc, out = go_build()
+        conc = run_conc(prop, r["seed"], r["rounds"])
+        print(json.dumps({k: conc[k] for k in ("scenarios", "ops", "failures", "race")}, indent=1))
+        if conc["race"]:
+            print(conc["log"][:3000])
+        if conc["failures"] or conc["race"]:
+            print("VIOLATION property=%s replay=%s" % (prop, path))
+            return 1
+        return 0
     if r.get("kind") != "failing-input":
         print(json.dumps(r, indent=1)[:4000])
         return 1
